@@ -1,5 +1,5 @@
 -- GENERATED from /repo by tools (never hand-edited); regenerated on every check run.
-import ScenicModel.Model.Determinism
+import ScenicModel.Model.DepOrder
 namespace Scenic.Gen
 open Scenic.Det
 
@@ -18,15 +18,46 @@ def detOrderSites : List (String × Bool) :=
     ("scenario.behaviorDeps", true),
     ("scenario.dependencies", true) ]
 
+/-- the same sites judged on their own (their inputs assumed ordered): the kind of each container -/
+def detSiteKinds : List (String × Bool) :=
+  [ ("requirement.getNameBindings.globals", true),
+    ("requirement.getNameBindings.closures", true),
+    ("requirement.init.cells", true),
+    ("requirement.init.bindings", true),
+    ("requirement.compile.deps", true),
+    ("dynamic.requirementDeps", true),
+    ("dynamic.toScenario", true),
+    ("scenario.instances", true),
+    ("scenario.paramDeps", true),
+    ("scenario.behaviorDeps", true),
+    ("scenario.dependencies", true) ]
+
 /-- sites that are themselves iterated in an address-dependent order (root causes) -/
 def detUnorderedRoots : List String := []
 
 
-/-- root causes recorded as known findings (KNOWN_FINDINGS.json / findings.d, keys `unordered-site:<site>`) -/
-def detKnownUnorderedRoots : List String := ["requirement.getNameBindings.closures"]
+def detSiteOrdered (name : String) : Bool := (detSiteKinds.lookup name).getD false
 
-/-- the segments concatenated into `Scenario.dependencies`, in order -/
+/-- the container kinds as the model of the construction of `Scenario.dependencies` takes them -/
+def detKinds : Kinds :=
+  { bindings := detSiteOrdered "requirement.getNameBindings.globals" && detSiteOrdered "requirement.init.bindings",
+    closures := detSiteOrdered "requirement.getNameBindings.closures",
+    cells := detSiteOrdered "requirement.init.cells",
+    compileDeps := detSiteOrdered "requirement.compile.deps",
+    dynDeps := detSiteOrdered "dynamic.requirementDeps",
+    passed := detSiteOrdered "dynamic.toScenario",
+    instances := detSiteOrdered "scenario.instances",
+    paramDeps := detSiteOrdered "scenario.paramDeps",
+    behaviorDeps := detSiteOrdered "scenario.behaviorDeps",
+    dependencies := detSiteOrdered "scenario.dependencies",
+    size := 8 }
+
+/-- the segments concatenated into `Scenario.dependencies`, in source order: as written, and by role -/
 def detDependencyTerms : List String := ["self._instances", "paramDeps", "tuple(requirementDeps)", "tuple(behaviorDeps)"]
+def detDependencySegs : List Seg := [.instances, .params, .reqDeps, .behaviors]
+
+/-- where `PendingRequirement.compile` adds dependencies, in source order -/
+def detCompileSources : List DepSrc := [.bindings, .cells, .objectsIfCanSee, .ego]
 
 /-- generator states saved before / restored after `self.checker.checkRequirements(sample)`
     in `Scenario._generateInner` -/
